@@ -132,15 +132,18 @@ def traverse (st : St) (functions : List (Id × AstOp)) :
 
 def mergeFns (fs extra : List (Id × AstOp)) : List (Id × AstOp) := extra.foldl (fun acc f => upsertFn f acc) fs
 
+/-- `AST_OPERATIONS[arg]` for one parameter id: its name and type -/
+def argOf (st : St) (a : Id) : Except Err (String × MTy) :=
+  match st.lookup a with
+  | some (.argRef n _ t) => .ok (n, t)
+  | some _ => .error .T
+  | none => .error .key
+
 /-- `NadaFunctionASTOperation.to_mir(operations)` -/
 def fnToMir (st : St) (k : Id) (f : AstOp) (table : List (Id × AstOp)) : Except Err MirFn :=
   match f with
   | .function name args child ty => do
-    let as ← args.mapM fun a =>
-      match st.lookup a with
-      | some (.argRef n _ t) => .ok (n, t)
-      | some _ => .error .T
-      | none => .error .key
+    let as ← args.mapM (argOf st)
     .ok { id := k, args := as, name := name, returnOp := child, ops := table, returnType := ty }
   | _ => .error .T
 
